@@ -30,9 +30,9 @@ class Check(RuntimeCheck):
         from .macro_common import MacroCheck
         class Generated(MacroCheck):
             prop = 'C03'
-            case_prefixes = ('own.default', 'rc.default.shared', 'arc.default.shared')
-            facts_of_interest = r'$^'
-        Generated().explore_into(rep, tier, seed, ir=False, merge=True)
+            case_prefixes = ('own.default', 'rc.default.shared', 'arc.default.shared', 'generic.instances-modes')
+            facts_of_interest = r'path='       # the Trait::method every failure line names (module, flattened and hidden api alike)
+        Generated().explore_into(rep, tier, seed, ir=True, merge=True)
         # counts at the bound reached by calls made at the same time through clones: under every schedule the verdict is the sequential one
         from ..parcheck import ParCheck, par_scenario
         class Par(ParCheck):
@@ -83,11 +83,11 @@ class Check(RuntimeCheck):
                         chain = [(r.replace('ret', f"ret{i + 1}"), q) for (r, q) in chains[c]]
                         terms.append(term([1, 5, 1][i], 'each', Pat(mask=1 << i, chain=chain, dbg=(i + 1) if i % 2 else 0)))
                     tree = tup(terms) if n > 1 else terms[0]
-                    for end in (['verify', 'drop', 'report'] if (k % 3 == 0 or tier == 'thorough') else [['verify', 'drop', 'report'][k % 3]]):
-                        evs = [scn.build(0, 0, 'strict', tree)]
+                    for end in (['verify', 'drop', 'report', 'nv-report'] if (k % 3 == 0 or tier == 'thorough') else [['verify', 'drop', 'report'][k % 3]]):
+                        evs = [scn.build(0, 0, 'strict', tree)] + ([scn.noverify(0)] if end == 'nv-report' else [])
                         for i, cnt in enumerate(counts):
                             evs += [scn.call(0, [1, 5, 1][i], i) for _ in range(cnt)]
-                        evs.append({'verify': scn.verify, 'drop': scn.drop, 'report': scn.report}[end](0))
+                        evs.append({'verify': scn.verify, 'drop': scn.drop, 'report': scn.report, 'nv-report': scn.report}[end](0))
                         out.append(scn.scenario(f"x{k}", evs))
                         k += 1
         return [('exhaustive', ''.join(out))]
